@@ -45,6 +45,10 @@ CHECKS = {
    technique="bounded exhaustive enumeration (E1) of probability/observation vectors (incl. 0, 1, bin edges, constant observations) and of small probabilistic datasets (stored vs ensemble-derived thresholds and quantile levels, 8 bin types, missing cells and members) against plain-Python reference definitions on the reference dataset model's valid cases",
    text="Formula level: all (p, o) vectors of length <=3 (thorough 4) over p in {0,.05,.1,.25,.3,.5,.95,1} x o in {0,1} through compute_from_obs_fcst of bs, bsrel, bsres, bsunc, bss, bssrel, bssres, with the identities BS = REL - RES + UNC (one p per bin) and BS(event) = BS(complement). Data level (in-memory, text and NetCDF inputs): a file storing cdf columns at thresholds {1,3}, quantile columns {.1,.9}, three members and pit; requests at stored and non-stored thresholds / levels (ensemble fraction <= t, type-9 quantile), all 8 bin types, dev(1) (thorough dev(2)) over missing cells incl. single members: get_p (event probability P(<=upper) - P(<=lower), observed event), bs family, ign0, spherical, marginalratio, threshold, quantilescore, quantile, quantilecoverage, spread, spreadskillratio, pit, pithistdev/slope/shape on axes no / leadtime / location.",
    note="trusts: mc/ref/metrics_prob.py and mc/ref/dataset.py; a quantile from an ensemble with a missing member may be missing; mutually inconsistent stored/ensemble CDFs (negative event probabilities) are not generated"),
+ "C11": dict(level="exploration", design="5/C11",
+   technique="exhaustive enumeration (E1): every calendar day 1900-2100 for the date / unix-time / date-number conversions, every day 1970-2100 x 3 times of day for the 8 time buckets, every quarter-hour lead time 0-72 h, and every small subset of 16 boundary instants as a dataset on all 15 axes (API and CLI), against an integer-arithmetic calendar and the reference dataset model",
+   text="Conversions: all 73414 days, mutual inverses and agreement with civil-from-days arithmetic that does not use datetime. Buckets: all 47847 days x {00:00:00, 06:00, 23:59:59} for year, month, Monday-based week, day, time of day, day of year, day of month, month of year; lead-time day for 289 lead times. Datasets: all 696 (thorough 2516) subsets of size <=3 (4) of boundary instants (year ends, leap days in 2000/2016, Feb 28 -> Mar 1 in 2001 and 2100, Sunday 23 h / Monday 0 h, 1970-01-01, 2038) with lead times 0/23/24 h, 2 stations, 2 inputs in different orders, partly missing: axis values, every slice's cases, the union of slices = pooled cases, and through -x <axis> -type csv the counts, count-weighted mean and labels.",
+   note="trusts: mc/ref/calendar.py; either reading of 'day of year' accepted; time-like labels' text format is C12's subject"),
 }
 
 def main():
